@@ -9,7 +9,7 @@
    All statements are for arbitrary integers: no bound on sizes, weights or list lengths. *)
 From Coq Require Import ZArith List Bool Lia.
 Import ListNotations.
-From Urwid Require Import PyBase layout_gen Layout LayoutArith LayoutLists LayoutColumns LayoutOthers.
+From Urwid Require Import PyBase layout_gen Layout LayoutArith LayoutLists LayoutColumns LayoutOthers LayoutShares.
 Open Scope Z_scope.
 
 (* ================================================================== *)
@@ -192,17 +192,11 @@ Qed.
 Print Assumptions cw_fills_zero_slot_refuted.
 
 (* --- proportional shares --- *)
-(* The weighted columns that are shown, as (weight, width) pairs. *)
-Fixpoint shown_weighted (cs : list col) (F : list Z) : list (Z * Z) :=
-  match cs, F with
-  | c :: cs', w :: F' =>
-      if is_weight c && (0 <? w) then (snd c, w) :: shown_weighted cs' F' else shown_weighted cs' F'
-  | _, _ => []
-  end.
-(* every width within bound2/2 columns of  share * weight / (sum of weights) *)
-Definition shares_within (bound2 : Z) (S : list (Z * Z)) : Prop :=
-  let Wt := zsum (map fst S) in let share := zsum (map snd S) in
-  Forall (fun p => - (bound2 * Wt) <= 2 * (snd p * Wt - share * fst p) <= bound2 * Wt) S.
+(* shown_weighted cs F (LayoutShares): the (weight, width) pairs of the weighted columns whose
+   width is positive, by column index.
+   shares_within b S: every width w of S satisfies | w - share*weight/W | <= b/2, where
+   share = the sum of the widths and W = the sum of the weights of S
+   (stated without division:  -(b*W) <= 2*(w*W - share*weight) <= b*W). *)
 
 (* FULL statement of the clause ("to within one column unless the minimum width intervenes"):
    if no shown weighted column sits at min_width, every one is within 1 of its share *)
@@ -215,7 +209,8 @@ Definition cw_proportional_full : Prop :=
 
 (* It is FALSE of the faithful model: four columns of weight 1,1,1,5, min_width 1, 13 columns
    give [2;2;2;7] while the proportional share of the last is 13*5/8 = 8.125 (off by 1.125).
-   The same input on urwid.Columns returns the same widths (corpus/C19, finding C19-prop). *)
+   The same input on urwid.Columns returns the same widths (corpus/C19/corners.json, reported as
+   finding C19-proportional-beyond-one-column). *)
 Theorem cw_proportional_within_one_refuted : ~ cw_proportional_full.
 Proof.
   intros H.
@@ -237,19 +232,36 @@ Proof.
 Qed.
 Print Assumptions cw_proportional_within_one_refuted.
 
-(* What IS proved (partial): the loop that hands out the shares (cw_alloc = the third loop
-   of column_widths, run on any list of (weight, index) pairs in ascending weight order, any
-   min_width m, any amount G >= k*m): if no share was raised to m, every share is within
-   (k-1)/2 columns of G*weight/W, k = number of weighted columns -- exact for one column,
-   within 1/2 for two, within ONE for three; and (cw_fills_thm) the shares add up to G.
-   Missing for a top-level statement: the bookkeeping that identifies [shown_weighted cs F]
-   with the (sorted) list the loop ran on.  For k >= 4 "within one" is false (above). *)
-Theorem cw_proportional_partial : forall minw l G al,
+(* What IS true, for every input: with k weighted columns shown and none of them at min_width,
+   every one is within (k-1)/2 columns of its proportional share -- exact for one column,
+   within 1/2 for two, within ONE for three (the bound is sharp in the sense that "within
+   one" fails for four, above). *)
+Theorem cw_proportional_general_thm : forall cs div minw focus maxcol F,
+  Forall col_ok cs -> 0 <= div -> 1 <= minw -> 0 <= maxcol -> 0 <= focus < zlen cs ->
+  column_widths cs div minw focus maxcol = Ok F ->
+  let S := shown_weighted cs F in
+  Forall (fun p => minw < snd p) S -> shares_within (zlen S - 1) S.
+Proof. exact cw_proportional_general. Qed.
+Print Assumptions cw_proportional_general_thm.
+
+(* the clause as stated holds for up to three weighted columns *)
+Theorem cw_proportional_upto3_thm : forall cs div minw focus maxcol F,
+  Forall col_ok cs -> 0 <= div -> 1 <= minw -> 0 <= maxcol -> 0 <= focus < zlen cs ->
+  column_widths cs div minw focus maxcol = Ok F ->
+  let S := shown_weighted cs F in
+  zlen S <= 3 -> Forall (fun p => minw < snd p) S -> shares_within 2 S.
+Proof. exact cw_proportional_upto3. Qed.
+Print Assumptions cw_proportional_upto3_thm.
+
+(* the same bound about the sharing loop alone (cw_alloc = the third loop of column_widths, run
+   on any list of (weight, index) pairs in ascending weight order, any min_width m, any
+   amount G >= k*m) *)
+Theorem cw_alloc_proportional_thm : forall minw l G al,
   0 <= minw -> asc l -> Forall (fun p => 1 <= fst p) l -> zlen l * minw <= G -> l <> [] ->
   cw_alloc minw l G (zsum (map fst l)) = Ok al -> unclamped minw al ->
   Forall2 (fun x y => dev_ok G (zsum (map fst l)) (zlen l - 1) (fst x) (snd y)) l al.
 Proof. exact cw_alloc_proportional. Qed.
-Print Assumptions cw_proportional_partial.
+Print Assumptions cw_alloc_proportional_thm.
 
 (* the loop invariant the design asked for: the shares are all >= min_width, are assigned to
    the indices of the list in order, and add up to exactly G (this is what makes cw_fills true) *)
@@ -292,25 +304,40 @@ Theorem rows_sum_thm : forall items maxrow rows,
 Proof. exact rows_sum. Qed.
 Print Assumptions rows_sum_thm.
 
-(* proportionality of the weighted rows: same arithmetic step as Columns (prop_step), in
-   contents order; "within one" fails for four items as for Columns *)
+(* proportionality of the weighted rows.  weighted_rows items rows: the (weight, rows) pairs of
+   the weighted items in order; npos: the number of positively weighted items.
+   FULL statement ("a box-sized Pile divides its rows the same way": within one row): *)
 Definition rows_proportional_full : Prop :=
   forall items maxrow rows,
-    Forall pitem_ok items -> pile_item_rows items maxrow = Ok rows -> fixed_sum items <= maxrow ->
-    shares_within 2 (shown_weighted items rows).
+    Forall pitem_ok items -> pile_item_rows items maxrow = Ok rows ->
+    shares_within 2 (weighted_rows items rows).
+(* false for four weighted items: weights 1,1,1,9 in 7 rows give [1;1;1;4], share 5.25 *)
 Theorem rows_proportional_within_one_refuted : ~ rows_proportional_full.
 Proof.
   intros H.
   specialize (H [(KWeight, 1); (KWeight, 1); (KWeight, 1); (KWeight, 9)] 7 [1; 1; 1; 4]).
   assert (Hok : Forall pitem_ok [(KWeight, 1); (KWeight, 1); (KWeight, 1); (KWeight, 9)])
     by (repeat constructor; unfold pitem_ok; cbn; apply Z.leb_le; reflexivity).
-  specialize (H Hok ltac:(vm_compute; reflexivity) ltac:(apply Z.leb_le; reflexivity)).
-  assert (HS : shown_weighted [(KWeight, 1); (KWeight, 1); (KWeight, 1); (KWeight, 9)] [1; 1; 1; 4]
+  specialize (H Hok ltac:(vm_compute; reflexivity)).
+  assert (HS : weighted_rows [(KWeight, 1); (KWeight, 1); (KWeight, 1); (KWeight, 9)] [1; 1; 1; 4]
                = [(1, 1); (1, 1); (1, 1); (9, 4)]) by (vm_compute; reflexivity).
   rewrite HS in H. unfold shares_within in H. cbv zeta in H. rewrite Forall_forall in H.
   specialize (H (9, 4) ltac:(cbn; tauto)). cbn [fst snd map zsum] in H. lia.
 Qed.
 Print Assumptions rows_proportional_within_one_refuted.
+
+(* true for every input: within (k-1)/2 rows, k = number of positively weighted items *)
+Theorem rows_proportional_general_thm : forall items maxrow rows,
+  Forall pitem_ok items -> pile_item_rows items maxrow = Ok rows ->
+  shares_within (Z.max 0 (npos items - 1)) (weighted_rows items rows).
+Proof. exact rows_proportional_general. Qed.
+Print Assumptions rows_proportional_general_thm.
+
+Theorem rows_proportional_upto3_thm : forall items maxrow rows,
+  Forall pitem_ok items -> pile_item_rows items maxrow = Ok rows -> npos items <= 3 ->
+  shares_within 2 (weighted_rows items rows).
+Proof. exact rows_proportional_upto3. Qed.
+Print Assumptions rows_proportional_upto3_thm.
 
 (* the step both loops share: from a remainder that is within j/2 of ideal, the next rounded
    share is within (j+1)/2 of its ideal share, and so is the new remainder *)
